@@ -687,6 +687,11 @@ class Fxp():
         elif isinstance(val, (int, float, complex)):
             vdtype = type(val)
 
+            if isinstance(val, int) and not (-2**63 <= val < 2**63):
+                # python integers beyond the int64 range are kept exact (as uint64 they would be
+                # reinterpreted in two's complement, beyond it numpy refuses to convert them)
+                val = np.array(val, dtype=object)
+
         elif isinstance(val, (np.ndarray, np.generic)):
             if isinstance(val, object):
                 vdtype = type(val.item(0))
@@ -846,9 +851,18 @@ class Fxp():
         # round, saturate and store
         if original_vdtype != complex and not np.issubdtype(original_vdtype, np.complexfloating):
             # val_dtype determination
+            # (the scaled value val * conv_factor must fit the int64 range, otherwise it is computed with
+            # python integers: numpy would wrap it silently or refuse to convert it)
             _n_word_max_ = min(_n_word_max, 64)
-            if np.max(val) >= 2**_n_word_max_ or np.min(val) < -2**_n_word_max_ or self.n_word >= _n_word_max_:
-                val_dtype = object
+            _val_lim = 2**(_n_word_max_ - 1)
+            if isinstance(conv_factor, int) and conv_factor > 1:
+                _val_lim = _val_lim // conv_factor
+            if val.dtype == np.uint64 and self.n_word < _n_word_max_:
+                # machine words (results of unsigned numpy arithmetic) keep their two's complement meaning
+                val = val.astype(np.int64)
+            if np.max(val) >= _val_lim or np.min(val) < -_val_lim or self.n_word >= _n_word_max_:
+                # (after saturation or wrapping the value fits the machine integer again if the word does)
+                val_dtype = object if self.n_word >= _n_word_max_ else (np.int64 if self.signed else np.uint64)
                 val = val.astype(object)
             else:
                 val = val.astype(original_vdtype)
